@@ -1,5 +1,5 @@
 #!/usr/bin/env python3
-"""tools/seedall.py [--matrix] [--suite] : run every seeded change (seeded/<ID>/) against its own property's quick check
+"""tools/seedall.py [--matrix] [--suite] [--only C02,C09] : run every seeded change (seeded/<ID>/) against its own property's quick check
 (--matrix: against all 20) and write the outcome into seeded/<ID>/meta.json ("verified") and seeded/RESULTS.md."""
 import json, os, subprocess, sys, concurrent.futures as cf
 HERE = os.path.dirname(os.path.dirname(os.path.abspath(__file__)))
@@ -17,6 +17,9 @@ def main():
     matrix = "--matrix" in sys.argv
     suite = "--suite" in sys.argv
     seeds = sorted(d for d in os.listdir(os.path.join(HERE, "seeded")) if os.path.isdir(os.path.join(HERE, "seeded", d)))
+    if "--only" in sys.argv:        # --only C02,C09 : the seeds of these properties only
+        keep = set(sys.argv[sys.argv.index("--only") + 1].split(","))
+        seeds = [s_ for s_ in seeds if s_[:3] in keep]
     rows = []
     with cf.ThreadPoolExecutor(max_workers=3) as ex:
         futs = [ex.submit(one, s, ALL if matrix else [json.load(open(os.path.join(HERE, "seeded", s, "meta.json")))["property"]], suite) for s in seeds]
@@ -38,6 +41,8 @@ def main():
             json.dump(meta, open(mp, "w"), indent=1)
             rows.append((sid, meta, caught, res))
             print(sid, "caught by", caught, flush=True)
+    if "--only" in sys.argv:
+        return
     with open(os.path.join(HERE, "seeded", "RESULTS.md"), "w") as f:
         f.write("| seed | what the change does | needs | caught by (quick tier) |\n|---|---|---|---|\n")
         for sid, meta, caught, res in rows:
